@@ -15,7 +15,7 @@
    t with the scripted mutations mus). *)
 From Coq Require Import ZArith List Bool.
 From Tickit Require Import RectDefs WinRectSet WinDefs WinSpec WinInput WinInputSpec WinInputProofs WinInputMutBase WinInputMutKey WinInputMutMouse WinInputMutation.
-From Tickit Require WinLogDisjoint WinShowSpec WinHideSpec WinInputMutationClaim.
+From Tickit Require WinLogDisjoint WinShowSpec WinHideSpec WinInputMutationClaim WinInputMutationClaimKey.
 Import ListNotations.
 Local Open Scope Z_scope.
 
@@ -280,6 +280,22 @@ Theorem C14_mutation_rest_claim_mouse : forall claims s h cls act tgt n0,
     c14_rest_set_checkb (t_ids n0) (fst (mouse_phase claims (mouse_order wn line col) ty btn)) (rev (i_log s')) = true.
 Proof. exact (@WinInputMutationClaim.C14_mutation_rest_claim_mouse). Qed.
 Print Assumptions C14_mutation_rest_claim_mouse.
+
+(* keys with ARBITRARY claimers (inside or outside the closed subtree, before or after the
+   mutation; WinInputMutationClaimKey.v): the routing returns true exactly when a window that was
+   offered the key claims it, nothing is delivered after a claimer, and at most the last window
+   offered the key claims.  (Not proved here: that the windows offered the key outside the closed
+   subtree all occur in the unmutated key order.) *)
+Theorem C14_mutation_key_claim : forall fuel claims s w wn h cls act tgt n0 s' r,
+  armed_start s h cls act tgt n0 -> i_log s = [] ->
+  look s w = Some wn -> focus_okb wn = true -> (height wn < fuel)%nat ->
+  handle_key fuel no_defects claims s w = (s', r) ->
+  exists D, rev (i_log s') = map IKey D /\
+            r = existsb (fun x => Z.testbit (claims x) 0) D /\
+            fst (until_claim (fun x => Z.testbit (claims x) 0) D) = D /\
+            (forall D1 x D2, D = D1 ++ x :: D2 -> Z.testbit (claims x) 0 = true -> D2 = []).
+Proof. exact (@WinInputMutationClaimKey.C14_mutation_key_claim). Qed.
+Print Assumptions C14_mutation_key_claim.
 
 Theorem C14_mutation_destroy : forall claims s h cls act tgt n0,
   armed_start s h cls act tgt n0 ->
